@@ -21,6 +21,11 @@ class SymbolicBranch(Exception):
     pass
 
 
+class ContractViolation(AssertionError):
+    """raised by a harness stand-in when the code under test breaks the stand-in's contract (e.g. hands the spectral estimator a record
+    that is not one of the caller's channels): a finding candidate, unlike any other exception raised inside harness code"""
+
+
 def rv(x):
     """exact z3 numeral of a Python/numpy number"""
     if isinstance(x, (bool, rnp.bool_)):
